@@ -127,7 +127,7 @@ def inverse_tables(repo: Repo, R):
     R.check(e_ok and i_ok and r_ok, rule, f"{F_EXPORT}::export_primitive_params<->import_primitive_params", fep.site,
             f"pulse source renaming {rename}: covers every field of PulseVoltageSourceParams once: {e_ok}; importer is the inverse: {i_ok}; exported names are the reader's vpulse parameters {reader.get('vpulse', {}).get('params')}: {r_ok}",
             why="rise and fall time (or delay and period) are exchanged on export or on re-import")
-    guard = any(isinstance(n, ast.If) and ast.unparse(n.test) == "isinstance(params, PulseVoltageSourceParams)" for n in au.walk_no_nested(fep.node)) and any(isinstance(n, ast.If) and ast.unparse(n.test) in ("target is Vpulse", "target is PulseVoltageSource") for n in au.walk_no_nested(fip.node))
+    guard = any(isinstance(n, ast.If) and ast.unparse(n.test) == "isinstance(params, PulseVoltageSourceParams)" for n in au.walk_no_nested(fep.node)) and any(isinstance(n, ast.If) and ast.unparse(n.test) in (shared.ctext("target is Vpulse"), shared.ctext("target is PulseVoltageSource")) for n in au.walk_no_nested(fip.node))
     R.check(guard, rule, f"{F_EXPORT}::pulse-guards", fep.site, f"renaming applies exactly to the pulse source on both sides: {guard}", why="another primitive's parameters are renamed")
     # qualified names
     fq = repo.func(F_QUALNAME, "qualname")
